@@ -16933,9 +16933,13 @@ type BGPMessage struct {
 }
 
 func parseBody(h *BGPHeader, data []byte, options ...*MarshallingOption) (*BGPMessage, error) {
-	if len(data) < int(h.Len)-BGP_HEADER_LENGTH {
+	bodyLen := int(h.Len) - BGP_HEADER_LENGTH
+	if bodyLen < 0 || len(data) < bodyLen {
 		return nil, NewMessageError(BGP_ERROR_MESSAGE_HEADER_ERROR, BGP_ERROR_SUB_BAD_MESSAGE_LENGTH, nil, "Not all BGP message bytes available")
 	}
+	// the message ends where its header says; what follows in the buffer
+	// belongs to the next one
+	data = data[:bodyLen]
 	msg := &BGPMessage{Header: *h}
 
 	switch msg.Header.Type {
